@@ -285,4 +285,4 @@ def check_case(case):
 def run_shard(ctx):
     ctx.enumerate("attain", attain_cases(), check_case)
     ctx.enumerate("dimension", dimension_cases(), check_case)
-    ctx.drive("points", cases(), check_case, ctx.budget(160000, 3000000), use_target=True)
+    ctx.drive("points", cases(), check_case, ctx.budget(240000, 3000000), use_target=True)
